@@ -290,7 +290,7 @@ void run(size_t idx) {
 		Rng rng(seed);
 		ApiOpts ao;
 		ao.version = idx % 2 ? "SSE" : "SK";
-		ao.skinned = idx % 4 == 3 ? 0 : 1;
+		ao.skinned = (idx / 2) % 4 == 3 ? 0 : 1;   // (by idx / 2: both versions get unskinned models)
 		ao.colors = idx % 3 == 0;
 		ao.wideColors = idx % 6 == 0;
 		ao.partitions = idx % 5 == 0;
@@ -382,6 +382,25 @@ void run(size_t idx) {
 			NifFile cp(*m.nif);
 			m.bytes = saveNif(cp, false);
 		}
+		if (idx % 2 == 0 && ao.skinned == 0 && idx % 10 != 6) {
+			// an LE file as other tools write it: a geometry data block stored in front of the root node (the root is the first NiNode, not
+			// block 0); the conversion orphans that data block, and nothing but its position protects an unskinned model's root from pruning
+			NifFile cp;
+			if (loadNif(cp, m.bytes) == 0) {
+				auto& hdr = cp.GetHeader();
+				uint32_t n = hdr.GetNumBlocks(), d = NIF_NPOS;
+				for (uint32_t i = 1; i < n && d == NIF_NPOS; i++)
+					if (hdr.GetBlock<NiTriBasedGeomData>(i)) d = i;
+				if (d != NIF_NPOS) {
+					std::vector<uint32_t> order(n);
+					for (uint32_t i = 0; i < n; i++) order[i] = i < d ? i + 1 : i == d ? 0 : i;
+					hdr.SetBlockOrder(order);
+					m.bytes = saveNif(cp, true);
+					m.desc += " [geometry data stored in front of the root node]";
+					R_stat("models_with_the_root_not_first");
+				}
+			}
+		}
 		convertCheck(m.bytes, std::string("api:") + (unreferencedVerts ? "[unreferenced-vertices] " : "") + m.desc, seed, (int)(idx % 16) | (idx % 11 == 0 ? 16 : 0));
 		if (idx < 2) R_sample(fmt("{\"source\":\"api\",\"model\":\"%s\"}", jesc(m.desc).c_str()));
 	}
@@ -389,7 +408,7 @@ void run(size_t idx) {
 
 MonReg reg({"C12", "exploration",
 			"models: the real LE/SE samples x option combinations, API-built SK and SSE models (1-3 shapes, 3..300 vertices, skinned with 1..120 bones and 1..6 influences or unskinned, "
-			"vertex colours random / all white / none, random partitions, extra data, sibling name clashes, more than 80 bones in one partition, faces the stored partitions do not list, model-space-normal shaders, shapes that carry their own collision object, converted object used before; one case in 16 with vertices no triangle uses as a labelled stress dimension) x "
+			"vertex colours random / all white / none, random partitions, extra data, sibling name clashes, more than 80 bones in one partition, faces the stored partitions do not list, model-space-normal shaders, shapes that carry their own collision object, unskinned LE files whose first block is a geometry data block (root node second), converted object used before; one case in 16 with vertices no triangle uses as a labelled stress dimension) x "
 			"option combinations (removeParallax, calcBounds, fixBSXFlags, fixShaderFlags, headParts for single dynamic-capable shapes). Oracle per shape matched by name: positions "
 			"bit-exact, triangle multisets equal, UVs within half-float rounding, colours within 1/255 (all-white may be dropped), bone list equal, per-vertex weights equal to the normalised "
 			"four largest within 2e-3 (ties at the cut skipped), parent node, shader block, collision object (type, still targeting the shape) and controller chain kept, sibling names distinct; converted file reloads in the target version and satisfies the "
